@@ -405,13 +405,13 @@ def time_tainted(F, fl, op, tf, depth=0, seen=None):
             c = str(o.key)
             if c in tables.TIME_READERS:
                 return True
-            if F.body(c) is not None:
-                if fn_returns_time(F, c, tf, depth + 1):
-                    return True
-                if o.bb is not None:
-                    for a in b.blocks[o.bb]['term'].get('args', []):
-                        if time_tainted(F, fl, a, tf, depth + 1, seen):
-                            return True
+            if F.body(c) is not None and fn_returns_time(F, c, tf, depth + 1):
+                return True
+            if o.bb is not None:
+                # the result of a call computed from a time-dependent argument (`a.ok() > b.ok()`, `lookup(rel, stat)`)
+                for a in b.blocks[o.bb]['term'].get('args', []):
+                    if time_tainted(F, fl, a, tf, depth + 1, seen):
+                        return True
         elif o.kind == 'agg' and F.body(str(o.key)) is not None and o.bb is not None:
             # a closure: what it captured
             for st in b.blocks[o.bb]['stmts']:
